@@ -31,12 +31,18 @@ pub struct Obs {
     /// run counters after the script [seq, par, dispatch, thread_local]
     pub runs: Option<Vec<u32>>,
     pub dispatch_panic: Option<String>,
+    /// run counters that differ from `runs` when the default pool has that many threads
+    pub runs_by_pool: Vec<(usize, Vec<u32>)>,
     pub setups: Option<Vec<u32>>,
     pub disposes: Option<Vec<u32>>,
     /// try_into_sendable: Some(Ok(shape)) / Some(Err(()))
     pub sendable: Option<Result<Vec<Vec<usize>>, ()>>,
     pub shape: Vec<Vec<usize>>,
     pub ntl: usize,
+    /// world side of setup: for every subset (bit 0 = A, bit 1 = C) of pre-inserted sentinels, the values of
+    /// (A, C) after `setup`, after a second `setup`, and after `setup; remove A and C; setup`
+    /// (None = absent); plus whether anything else appeared in the world
+    pub setup_worlds: Vec<(u8, [Option<u64>; 2], [Option<u64>; 2], [Option<u64>; 2], bool)>,
     pub harness_errors: Vec<String>,
 }
 
@@ -92,6 +98,30 @@ pub fn observe(ops: &[Op], resmap: &[u8], need: Need) -> Obs {
         }
         o.runs = Some(ctx.runs.lock().unwrap().clone());
         ctx.take_log();
+        // the same script with default pools of 1, 2 and 3 threads (code that looks at the pool size)
+        if o.dispatch_panic.is_none() {
+            for n in [1usize, 2, 3] {
+                rayon::verif::set_default_threads(Some(n));
+                let ctx2 = Ctx::new(info_n, resmap.to_vec());
+                let reg2 = register(ops, &ctx2, None, false);
+                if let Ok(mut d2) = build(reg2.builder) {
+                    let r = catch_unwind(AssertUnwindSafe(|| {
+                        d2.dispatch_seq(&world);
+                        d2.dispatch_par(&world);
+                        d2.dispatch(&world);
+                        d2.dispatch_thread_local(&world);
+                    }));
+                    if let Err(p) = r {
+                        o.dispatch_panic = Some(format!("default pool of {} threads: {}", n, payload_str(&*p)));
+                    }
+                    let r2 = ctx2.runs.lock().unwrap().clone();
+                    if Some(&r2) != o.runs.as_ref() {
+                        o.runs_by_pool.push((n, r2));
+                    }
+                }
+                rayon::verif::set_default_threads(None);
+            }
+        }
     }
     if need.setup_dispose {
         let mut w = World::empty();
@@ -106,8 +136,62 @@ pub fn observe(ops: &[Op], resmap: &[u8], need: Need) -> Obs {
             Err(_) => Err(()),
         });
     }
+    if need.setup_dispose && all_ok(&o) {
+        o.setup_worlds = setup_worlds(ops, resmap);
+    }
     o.harness_errors = ctx.errors.lock().unwrap().clone();
     o
+}
+
+fn all_ok(o: &Obs) -> bool {
+    o.calls.iter().all(|c| c.panic.is_none()) && o.build_panic.is_none()
+}
+
+const SENT_A: u64 = 7_770;
+const SENT_C: u64 = 7_772;
+
+fn ac(w: &World) -> [Option<u64>; 2] {
+    [w.try_fetch::<Cell0>().map(|x| x.0), w.try_fetch::<Cell1>().map(|x| x.0)]
+}
+
+fn others_present(w: &World) -> bool {
+    // any of the other resources of the concrete universe
+    [1u8, 3, 4, 5].iter().any(|c| w.has_value_raw(concrete_id(*c)))
+}
+
+fn setup_worlds(ops: &[Op], resmap: &[u8]) -> Vec<(u8, [Option<u64>; 2], [Option<u64>; 2], [Option<u64>; 2], bool)> {
+    let mut out = Vec::new();
+    for mask in 0..4u8 {
+        let n = PlanInfo::of(ops).n();
+        let ctx = Ctx::new(n, resmap.to_vec());
+        let reg = register(ops, &ctx, None, false);
+        let mut d = match build(reg.builder) {
+            Ok(d) => d,
+            Err(_) => continue,
+        };
+        let mut w = World::empty();
+        if mask & 1 != 0 {
+            w.insert(Cell0(SENT_A));
+        }
+        if mask & 2 != 0 {
+            w.insert(Cell1(SENT_C));
+        }
+        let r = catch_unwind(AssertUnwindSafe(|| {
+            d.setup(&mut w);
+            let first = ac(&w);
+            d.setup(&mut w);
+            let second = ac(&w);
+            let extra = others_present(&w);
+            w.remove::<Cell0>();
+            w.remove::<Cell1>();
+            d.setup(&mut w);
+            (first, second, ac(&w), extra)
+        }));
+        if let Ok((a, b, c, e)) = r {
+            out.push((mask, a, b, c, e));
+        }
+    }
+    out
 }
 
 /// Just the layout (used by metamorphic comparisons).
